@@ -168,6 +168,9 @@ def run_shard(shard, tier, acc):
         out = o.run.stdout
         if o.run.exc:
             fails.append(('crash', 'generation loop raised %s' % o.run.exc.strip().splitlines()[-1]))
+        elif o.exit_write is None and (o.q_dropped or ('q' in o.consumed and o.kb_natural_end and not o.thread_exc)):
+            fails.append(('quit-request-dropped', 'the user typed q (answers consumed: %r) and the keyboard thread finished handling it, but the quit flag was never set: '
+                          'the run emitted %d guesses and saved nothing' % (o.consumed, len(out))))
         elif o.exit_write is None:
             if out != U.stdout:
                 why = 'thread died with %s' % o.thread_exc if o.thread_exc else ('status print failed' if 'S!' in script else 'thread ended')
